@@ -27,7 +27,7 @@ CLAIMED = {
    technique="deterministic simulation: seeded scheduler over hash-iteration orders + fresh-process replays, digest equality"),
  "C01": dict(level="fault_enumeration", ref="DESIGN §5 C01",
    text="Prover, transport and both verifiers run in one process: an honest uni-STARK or batch-STARK proof is serialized to a tree, every numeric leaf and every public value is corrupted one fault at a time (five fault kinds), and the native verifier and the in-circuit verifier (fixed circuit for value leaves, circuit rebuilt from the received proof for usize leaves) must agree, over a swarm of proof shapes and FRI parameter sets.",
-   note="Native p3 verifiers are the oracle. Panics count as reject here (they are C15's observable). Universes (per twelve runs): U-KB4 / U-BB4 with TwoAdicFriPcs (3 + 3), KoalaBear with HidingFriPcs over the plain MMCS and over the salted MerkleTreeHidingMmcs (1 + 1), custom-AIR batches proven with raw p3_batch_stark (2), Goldilocks degree-2 (2); arity-2 MMCS.",
+   note="Native p3 verifiers are the oracle. Panics count as reject here (they are C15's observable). Universes (per twelve runs): U-KB4 / U-BB4 with TwoAdicFriPcs (2 + 3), KoalaBear with HidingFriPcs over the plain MMCS and over the salted MerkleTreeHidingMmcs (1 + 1), custom AIRs (global and local lookups, preprocessed columns with / without next-row access, periodic columns, verifier public values, degree-5 constraints, no-next-row tables) proven with raw p3_batch_stark / p3_uni_stark under TwoAdicFriPcs (2) and HidingFriPcs (1), Goldilocks degree-2 (2); arity-2 MMCS.",
    technique="deterministic simulation with message-fault enumeration between prover and two verifier nodes"),
  "C04": dict(level="fault_enumeration", ref="DESIGN §5 C04",
    text="Byzantine prover at matrix depth through hook H2: after an honest run every cell of every active row (and one padding row) of every primitive table is altered, or an operand is altered and the row re-solved locally, or rows are swapped, or a constant is substituted and propagated; the real prover commits and proves the forged matrices and the commitment-binding verifier decides. Ground truth (operation relations over the extension field, constants, agreement of all bus participants) is computed per case; accepted and invalid is a violation. Fault-free control arm first.",
